@@ -1682,7 +1682,7 @@ func cfgScenario(prop string, faultBias int, traffic bool, nQuick, nThorough int
 			hs[len(hs)-1] = corpusHistoryCrossKind() // corpus
 		}
 		if len(hs) > 2 && traffic {
-			nfail := 6
+			nfail := 14
 			if ctx.Thorough() {
 				nfail = 30
 			}
